@@ -46,6 +46,7 @@ type Op struct {
 	Ver  string   `json:"ver,omitempty"`
 	Pat  string   `json:"pat,omitempty"`
 	D    int64    `json:"d,omitempty"`
+	D2   int64    `json:"d2,omitempty"` // c06's step W2 (two waiters): context deadline of the second waiter, ms
 }
 
 var big300 = []byte(strings.Repeat("x", 300))
